@@ -36,6 +36,21 @@ fn lhs_ip() -> IpAddr {
     }
 }
 
+/// The symbolic left-hand value kept in the statics above.
+fn lhs_value() -> LhsValue<'static> {
+    unsafe {
+        match LHS_KIND {
+            0 => LhsValue::Int(LHS_INT),
+            1 => LhsValue::Bool(LHS_BOOL),
+            2 => LhsValue::Ip(lhs_ip()),
+            _ => {
+                let b: &'static [u8; 16] = &*(&raw const LHS_BYTES);
+                LhsValue::Bytes((&b[..LHS_BYTES_LEN]).into())
+            }
+        }
+    }
+}
+
 /// Replacement for `IndexExpr::compile_with` (same signature).
 fn compile_with_stub<C: Compiler>(
     this: IndexExpr,
@@ -47,17 +62,7 @@ fn compile_with_stub<C: Compiler>(
     let ctx: &ExecutionContext<'_, C::U> = unsafe {
         if CTX.is_null() { ctx_mu.assume_init_ref() } else { &*(CTX as *const ExecutionContext<'_, C::U>) }
     };
-    let v: LhsValue<'_> = unsafe {
-        match LHS_KIND {
-            0 => LhsValue::Int(LHS_INT),
-            1 => LhsValue::Bool(LHS_BOOL),
-            2 => LhsValue::Ip(lhs_ip()),
-            _ => {
-                let b: &'static [u8; 16] = &*(&raw const LHS_BYTES);
-                LhsValue::Bytes((&b[..LHS_BYTES_LEN]).into())
-            }
-        }
-    };
+    let v: LhsValue<'_> = lhs_value();
     let r = comp.compare(&v, ctx);
     unsafe {
         REC_DEFAULT = default;
@@ -94,6 +99,8 @@ fn field_expr(s: &Scheme, op: ComparisonOpExpr) -> ComparisonExpr {
     }
 }
 
+/// Under Kani: compile the node; the continuation stub records (default, result).
+#[cfg(not(test))]
 fn run(e: ComparisonExpr) -> (bool, bool) {
     let mut c = DefaultCompiler::<()>::new();
     let compiled = e.compile_with_compiler(&mut c);
@@ -102,6 +109,31 @@ fn run(e: ComparisonExpr) -> (bool, bool) {
         assert!(REC_CALLS == 1, "the comparison must be compiled through exactly one compile_with call");
         (REC_DEFAULT, REC_RESULT)
     }
+}
+
+/// Native replay (`cargo kani playback` builds with cfg(test); Kani stubs do not
+/// exist there): the same node is compiled by the unmodified code and executed
+/// against a real context - once with the field absent (that result is the
+/// default the arm selected) and once with the concrete left-hand value set.
+#[cfg(test)]
+fn run(e: ComparisonExpr) -> (bool, bool) {
+    let s = match &e.lhs.identifier {
+        IdentifierExpr::Field(f) => f.scheme().clone(),
+        _ => unreachable!(),
+    };
+    let compiled = e.compile_with_compiler(&mut DefaultCompiler::<()>::new());
+    let exec = |ctx: &ExecutionContext<'_, ()>| match &compiled {
+        CompiledExpr::One(one) => one.execute(ctx),
+        CompiledExpr::Vec(_) => panic!("a plain field comparison must compile to a single boolean"),
+    };
+    let mut ctx = unsafe {
+        if CTX.is_null() { ExecutionContext::<()>::new(&s) } else { std::ptr::read(CTX as *const ExecutionContext<'static, ()>) }
+    };
+    let default = exec(&ctx);
+    ctx.set_field_value(FieldRef { scheme: &s, index: 0 }, lhs_value()).unwrap();
+    let got = exec(&ctx);
+    std::mem::forget(ctx);
+    (default, got)
 }
 
 fn any_op() -> OrderingOp {
@@ -809,6 +841,12 @@ fn c17_inlist_absent_default() {
     let nil_false: bool = kani::any();
     let mut b = SchemeBuilder::new();
     b.nil_not_equal_is_false = nil_false;
+    #[cfg(test)]
+    {
+        // native replay executes the compiled closure: it needs the field and a list
+        b.fields.push(FieldDefinition { name: Arc::from("f"), ty: Type::Int, optional: true });
+        b.lists.push((Type::Int, Box::new(crate::list_matcher::NeverList {})));
+    }
     let s = b.build();
     let op = ComparisonOpExpr::InList {
         list: List { scheme: s.clone(), index: 0 },
